@@ -21,6 +21,7 @@ def run(tier, seed):
     # design level: RemovalFrame (everything that survives a removal is unchanged) + the graph rules after every removal
     for sd in ("svc", "rich"):
         tc.model_check(rep, "MC_FimTopology seed=" + sd, tc.consts(2 if quick else 4, sd, "full"))
+    tc.model_check(rep, "MC_FimTopology seed=fac3 profile=fac", tc.consts(4 if quick else 6, "fac3", "fac"))
     scripts = []
     for sd in ("svc", "rich"):
         scripts += tc.generate(rep, "Gen_FimTopology seed=%s (removal transitions)" % sd, tc.consts(3 if quick or sd == "rich" else 4, sd, "full"),
@@ -30,7 +31,7 @@ def run(tier, seed):
                            keep=lambda p: p["op"]["op"] in REMOVALS or p["op"]["op"] in HANDLE_OPS or p["op"]["op"] == "Views",
                            workers=8)
     # a facility with three interfaces: which of them is connected when the facility goes is the explorer's choice
-    scripts += tc.generate(rep, "Gen_FimTopology seed=fac3 (removal transitions)", tc.consts(2 if quick else 3, "fac3", "full"),
+    scripts += tc.generate(rep, "Gen_FimTopology seed=fac3 (removal transitions)", tc.consts(4 if quick else 5, "fac3", "fac"),
                            keep=lambda p: p["op"]["op"] in REMOVALS or p["op"]["op"] in HANDLE_OPS or p["op"]["op"] == "Views",
                            workers=8)
     tc.run_and_validate(rep, scripts, "every applicable removal/disconnect in every reachable topology of the bound", only_ops=mine)
